@@ -92,11 +92,6 @@ structure Ctx where
   /-- the method body: `none` = returned an error (or panicked): its layer is dropped -/
   body : String → String → List String → Led → Option Led
 
-/-- decimal digits to a number (structural, so that the kernel can evaluate it) -/
-def digitsVal : List Char → Nat → Nat
-  | [], acc => acc
-  | ch :: cs, acc => digitsVal cs (acc * 10 + (ch.toNat - 48))
-
 /-- `strconv.ParseUint` on a string that passed `isNumeric` -/
 def nonceOf (s : String) : Nat := digitsVal s.toList 0
 
